@@ -1,4 +1,19 @@
-/- dsmodel_varopt: model driver stub (filled in when the family is built). -/
-def main (_args : List String) : IO UInt32 := do
-  IO.eprintln "dsmodel_varopt: not built yet"
-  return 2
+/- dsmodel_varopt: `varopt` = VarOpt sketch / union histories (C16). -/
+import DSModel.VarOpt.Driver
+import DSModel.DriverLoop
+import DSGen.VarOpt
+open DS
+
+def varoptTunables : VarOpt.Tunables :=
+  { maxK := DSGen.varopt_MAX_K, minLgArrItems := DSGen.varopt_MIN_LG_ARR_ITEMS,
+    defaultRf := DSGen.varopt_DEFAULT_RESIZE_FACTOR,
+    kappaNum := DSGen.varopt_DEFAULT_KAPPA_num, kappaDen := DSGen.varopt_DEFAULT_KAPPA_den,
+    tolNum := DSGen.varopt_COERCER_TOL_num, tolDen := DSGen.varopt_COERCER_TOL_den,
+    erfA := [(DSGen.bbp_ERF_A1_num, DSGen.bbp_ERF_A1_den), (DSGen.bbp_ERF_A2_num, DSGen.bbp_ERF_A2_den),
+             (DSGen.bbp_ERF_A3_num, DSGen.bbp_ERF_A3_den), (DSGen.bbp_ERF_A4_num, DSGen.bbp_ERF_A4_den),
+             (DSGen.bbp_ERF_A5_num, DSGen.bbp_ERF_A5_den), (DSGen.bbp_ERF_A6_num, DSGen.bbp_ERF_A6_den)] }
+
+def main (args : List String) : IO UInt32 := do
+  match args with
+  | ["varopt"] => runDriver ([] : VarOpt.Objs) (VarOpt.stepLine varoptTunables)
+  | _ => IO.eprintln "usage: dsmodel_varopt varopt"; return 2
